@@ -15,6 +15,7 @@
                 Reset in progress; the node is reopened on the database image of that batch prefix
      reset h    bc.Reset(h) as the command line does it
      look i     GetHeaderHash sweep over all indexes (pulls the stored pages into the LRU)
+     retrust t  clean stop, then the node is reopened with TrustedHeader t configured (and stays so)
    The silent model steps (GC after Persist, Restart, the stage batches of Reset) are not printed: the
    driver's operations contain them. *)
 EXTENDS HeaderHashesImpl, Json
@@ -31,6 +32,7 @@ SFlush   == Persist /\ Rec([op |-> "flush"])
 SStop    == Stop /\ Rec([op |-> "stop"])
 SCrash   == Crash /\ Rec([op |-> "crash", at |-> IF pc = <<>> THEN "" ELSE pc[1].k])
 SReset(h) == Reset(h) /\ Rec([op |-> "reset", h |-> h])
+SRetrust(t) == Retrust(t) /\ Rec([op |-> "retrust", t |-> t])
 SLook(i) == Len(hist) % 4 = 3 /\ Lookup(i) /\ Rec([op |-> "look", i |-> i])
 Silent   == (GC \/ Restart \/ R1 \/ R2 \/ R3) /\ Quiet
 
@@ -38,7 +40,10 @@ SimInit == Init /\ hist = <<[op |-> "init", t |-> tr, page |-> Page, rub |-> RUB
 \* a node that is down or inside a multi-batch operation can only take the silent step (or crash)
 Busy == ~up \/ pc # <<>>
 SimNext ==
-    /\ tr' = tr
+    \/ (~Busy /\ \E t \in RSet : SRetrust(t))
+    \/ (~Busy /\ \E t \in RSet : SRetrust(t))
+    \/
+    /\ tr' = tr /\ base' = base
     /\ IF Busy THEN (Silent \/ Silent \/ Silent \/ SCrash)
        ELSE \/ \E n \in 1..(Page + 1) : SHdr(n)
             \/ \E n \in 2..(Page + 1) : SHdr(n)
@@ -58,7 +63,7 @@ Emit == Len(hist) # Depth \/ PrintT(<<"@@HIST@@", ToJson(hist)>>)
 N(ok, name) == IF ok THEN {} ELSE {name}
 BadNames == N(AbsAnswers, "AbsAnswers") \cup N(AbsTip, "AbsTip") \cup N(AbsHeights, "AbsHeights") \cup N(AbsReset, "AbsReset")
             \cup N(CanRestart, "CanRestart") \cup N(NoDead, "NoDead") \cup N(MemCanonical, "MemCanonical")
-            \cup N(RestartTransparent, "RestartTransparent") \cup N(DiskPages, "DiskPages")
+            \cup N(RestartTransparent, "RestartTransparent") \cup N(DiskPages, "DiskPages") \cup N(KeepsList, "KeepsList")
 CE == PrintT(<<"@@CE@@", ToJson([bad |-> BadNames, hist |-> hist])>>)
 NoBad  == BadNames = {} \/ ~CE
 AllBad == BadNames = {} \/ CE
